@@ -70,7 +70,12 @@ def main():
     items = [it for it in items if any(it[0].startswith(px) for px in prefixes)]
     results = []
     for name, patch, props, benign in items:
-        d, repo = scratch_copy(patch)
+        try:
+            d, repo = scratch_copy(patch)
+        except RuntimeError as e:
+            print('{:<44} PATCH DOES NOT APPLY: {}'.format(name, str(e).splitlines()[-1]), flush=True)
+            results.append((name, '-', None, False, 0, None, 'patch does not apply'))
+            continue
         try:
             tests = None
             if run_tests:
